@@ -11,9 +11,20 @@ from fractions import Fraction
 
 from harness.lib.core import Corr, Prop, blit, llit, qlit
 
-GEN_LABELS = ["CAR", "BICYCLE", "PEDESTRIAN", "MOTORBIKE", "UNKNOWN", "FP"]
-TLR_LABELS = ["GREEN", "RED", "YELLOW", "UNKNOWN", "RED_LEFT", "FP"]
+GEN_LABELS = ["CAR", "BICYCLE", "PEDESTRIAN", "MOTORBIKE", "UNKNOWN", "FP", "ANIMAL"]
+TLR_LABELS = ["GREEN", "RED", "YELLOW", "UNKNOWN", "RED_LEFT", "FP", "TRAFFIC_LIGHT"]
 FP_LABEL = 5
+EXTRA_LABEL = 6             # ANIMAL / TRAFFIC_LIGHT: members the target lists never hold
+RARE_LABELS = (0, 3, 4, 5)  # contains UNKNOWN of either family (index 4 / 3) and the FP label
+# spellings a dataset / a perception stack uses for one and the same label (Label.name is free text; Label.__eq__ is on .label only)
+GEN_NAMES = {"CAR": ["car", "vehicle.car", "CAR"], "BICYCLE": ["bicycle", "vehicle.bicycle"], "PEDESTRIAN": ["pedestrian", "stroller",
+             "pedestrian.adult"], "MOTORBIKE": ["motorbike", "vehicle.motorcycle"], "UNKNOWN": ["unknown", "movable_object.debris"],
+             "FP": ["false_positive", "FP"], "ANIMAL": ["animal"]}
+TLR_NAMES = {"GREEN": ["green", "crosswalk_green"], "RED": ["red", "crosswalk_red"], "YELLOW": ["yellow", "amber"],
+             "UNKNOWN": ["unknown", "crosswalk_unknown"], "RED_LEFT": ["red_left", "red-left"], "FP": ["false_positive"],
+             "TRAFFIC_LIGHT": ["traffic_light"]}
+ATTRS = [None, [], ["occluded"], ["vehicle.parked", "red"], ["car"]]
+POLICIES = [None, "DEFAULT", "ALLOW_UNKNOWN", "ALLOW_ANY"]
 # camera index -> FrameID member name; index 1 is the integrated traffic-light camera the generic matcher tests for
 CAMS = ["CAM_FRONT", "CAM_TRAFFIC_LIGHT", "CAM_BACK", "CAM_TRAFFIC_LIGHT_NEAR", "CAM_TRAFFIC_LIGHT_FAR"]
 TL_CAM = 1
@@ -24,7 +35,13 @@ RULE = ("streams: boundary (hand-written: no GT, no estimates, all same label, d
         "(len(ests)+len(gts)<=3 over 3 uuids x 2 cameras x 3 labels), all 3^(ne+ng) label assignments on two fixed (uuid, camera) structures "
         "for 3..4 x 3..4 objects (both exhaustive streams are sampled in the quick tier), random <=4x4, random up to 30x30 on 1..3 of 5 cameras; "
         "each object set is run as generic, traffic-light, traffic-light+uuid_matching_first with a random target-label list (subset, "
-        "permutation, duplicate, empty) and flat or per-frame nested result lists; non-trivial = at least one real pair and >= 3 objects; "
+        "permutation, duplicate, empty) and flat or per-frame nested result lists; representation streams on every object set: a random "
+        "subset of the GROUND TRUTHS carries a ROI (none / all / the first / only later ones; estimates stay ROI-less, the dataset-vs-"
+        "classifier shape), label names are drawn from aliases of the same label with random attribute lists (Label equality is on the "
+        "label only), and get_object_results receives the manager's keyword arguments (matching_label_policy incl. ALLOW_UNKNOWN / "
+        "ALLOW_ANY, matchable_thresholds, target_labels), none of which may change an identity-based pairing or the label agreement; "
+        "the small space over the label set {0, UNKNOWN, FP} (<= 1 object exhaustively, 3 objects sampled; thorough: <= 2 / 1000) and "
+        "boundary cases with ANIMAL / TRAFFIC_LIGHT members; non-trivial = at least one real pair and >= 3 objects; "
         "second correspondence: ClassificationAccuracy on hand-made result lists with arbitrary num_ground_truth")
 
 _cache = {}
@@ -36,6 +53,7 @@ def _env():
         from perception_eval.common.label import AutowareLabel, Label, TrafficLightLabel
         from perception_eval.common.object2d import DynamicObject2D
         from perception_eval.common.schema import FrameID
+        from perception_eval.evaluation.matching import MatchingLabelPolicy
         from perception_eval.evaluation.matching.objects_filter import divide_objects, divide_objects_to_num
         from perception_eval.evaluation.metrics.classification import ClassificationMetricsScore
         from perception_eval.evaluation.metrics.classification.accuracy import ClassificationAccuracy
@@ -46,7 +64,7 @@ def _env():
             gen=[AutowareLabel[n] for n in GEN_LABELS], tlr=[TrafficLightLabel[n] for n in TLR_LABELS],
             cams=[FrameID[n] for n in CAMS], tlcam=FrameID.CAM_TRAFFIC_LIGHT,
             divide=divide_objects, divide_num=divide_objects_to_num, Score=ClassificationMetricsScore,
-            Acc=ClassificationAccuracy, get=get_object_results,
+            Acc=ClassificationAccuracy, get=get_object_results, Policy=MatchingLabelPolicy,
         )
     return _cache
 
@@ -115,8 +133,23 @@ def _targets(rng, labels_used):
 def _mk(rng, mode, uf, ests, gts, stream):
     used = [o[2] for o in ests + gts]
     n = len(ests)
-    return {"mode": mode, "uf": uf, "ests": ests, "gts": gts, "targets": _targets(rng, used),
+    case = {"mode": mode, "uf": uf, "ests": ests, "gts": gts, "targets": _targets(rng, used),
             "nest": rng.choice([None, None, 0, 1, max(1, n // 2), n]), "stream": stream}
+    # representation: which ground truths carry a ROI (a dataset annotation has one, the classifier's output has none), the
+    # spelling of every label name / its attributes (seeded), and the keyword arguments the manager hands to get_object_results
+    r = rng.random()
+    if r < 0.35:
+        case["gt_roi"] = []
+    elif r < 0.6:
+        case["gt_roi"] = list(range(len(gts)))
+    else:
+        case["gt_roi"] = sorted(set(([0] if gts and rng.random() < 0.6 else []) + [j for j in range(len(gts)) if rng.random() < 0.4]))
+    case["rep"] = rng.randrange(1 << 30) if rng.random() < 0.7 else None       # None: canonical names, default attributes
+    if rng.random() < 0.6:
+        case["kw"] = {"policy": rng.choice(POLICIES), "thr": rng.choice([None, [0.0], [1.0, 0.125], [1000.0]]), "tl": rng.random() < 0.7}
+    else:
+        case["kw"] = None
+    return case
 
 
 def _three_modes(rng, ests, gts, stream):
@@ -124,10 +157,10 @@ def _three_modes(rng, ests, gts, stream):
             _mk(rng, "tlr", True, ests, gts, stream)]
 
 
-def small_space(max_total):
-    """every pair of lists with len(ests)+len(gts) <= max_total over uuid in {0,1,2} x 2 cameras x 3 labels,
+def small_space(max_total, labels=(0, 1, 2)):
+    """every pair of lists with len(ests)+len(gts) <= max_total over uuid in {0,1,2} x 2 cameras x the labels (3 by default),
     unique (uuid, camera) per side"""
-    opts = [[u, c, l] for u in range(3) for c in (0, 1) for l in range(3)]
+    opts = [[u, c, l] for u in range(3) for c in (0, 1) for l in labels]
     for ne in range(0, max_total + 1):
         for ng in range(0, max_total + 1 - ne):
             for es in itertools.product(opts, repeat=ne):
@@ -176,6 +209,33 @@ def boundary_cases(rng):
     for c in out:
         if c["ests"] and c["ests"][0][2] == 4:
             c["targets"] = [0, 3]
+    # a member no target list holds (ANIMAL / TRAFFIC_LIGHT, the label of traffic lights outside classification), alone and mixed
+    out += _three_modes(rng, [[0, 1, EXTRA_LABEL], [1, 1, 0]], [[0, 1, EXTRA_LABEL], [1, 1, EXTRA_LABEL]], B)
+    out += _three_modes(rng, [[0, 1, EXTRA_LABEL], [1, 1, 3]], [[1, 1, 4], [0, 1, 3], [2, 1, FP_LABEL]], B)   # UNKNOWN of either family
+    # the realistic shape: every ground truth annotated with a ROI, ROI-less estimates, the manager's keyword arguments
+    for c in _three_modes(rng, [[0, 1, 0], [1, 1, 1], [2, 1, 2]], [[1, 1, 1], [0, 1, 2], [3, 1, 0]], B):
+        c["gt_roi"], c["kw"] = [0, 1, 2], {"policy": "ALLOW_ANY", "thr": [0.0], "tl": True}
+        out.append(c)
+    for c in _three_modes(rng, [[0, 1, 0], [1, 1, 1]], [[1, 1, 0], [0, 1, 1]], B):
+        c["gt_roi"], c["kw"], c["rep"] = [0], {"policy": "ALLOW_UNKNOWN", "thr": [1000.0], "tl": False}, 12345
+        out.append(c)
+    return out
+
+
+def rare_label_cases(rng, n, full_upto):
+    """the small space over the label set {0, 3, 4, FP} (UNKNOWN of both families and the FP label): every pair of lists with
+    at most `full_upto` objects, plus n random ones with 3 objects"""
+    out = []
+    for es, gs in small_space(full_upto, RARE_LABELS):
+        out += _three_modes(rng, es, gs, "exhaustive-small-rare-labels")
+    opts = [[u, c, l] for u in range(3) for c in (0, 1) for l in RARE_LABELS]
+    k = 0
+    while k < n:
+        ne = rng.randint(0, 3)
+        es, gs = [list(rng.choice(opts)) for _ in range(ne)], [list(rng.choice(opts)) for _ in range(3 - ne)]
+        if _valid_side(es) and _valid_side(gs):
+            out += _three_modes(rng, es, gs, "exhaustive-small-rare-labels(sampled)")
+            k += 1
     return out
 
 
@@ -303,6 +363,7 @@ class PipelineCorr(Corr):
                 out += _three_modes(rng, es, gs, "exhaustive-small(sampled)")
             for es, gs in rng.sample(list(label_space(4, 4)), 150) + rng.sample(list(label_space(3, 4)), 50):
                 out += _three_modes(rng, es, gs, "all-labels-4x4(sampled)")[1:]
+            out += [c for c in rare_label_cases(rng, 60, 1) if rng.random() < 0.6]
             out += random_cases(rng, 450, 150)
         else:
             out += malformed_cases(rng, 600)
@@ -311,30 +372,53 @@ class PipelineCorr(Corr):
             for ne, ng in ((4, 4), (3, 4), (3, 3)):
                 for es, gs in label_space(ne, ng):
                     out += _three_modes(rng, es, gs, "all-labels-%dx%d" % (ne, ng))[1:]
+            out += rare_label_cases(rng, 1000, 2)
             out += random_cases(rng, 5000, 1500)
         return out
 
     # ---------------------------------------------------------------- implementation
     def _objects(self, case, side):
         E = _env()
+        import random
+
         labels = E["tlr"] if case["mode"] == "tlr" else E["gen"]
+        names = TLR_NAMES if case["mode"] == "tlr" else GEN_NAMES
+        rep = case.get("rep")
+        r = None if rep is None else random.Random(2 * rep + (side == "gts"))
+        rois = set(case.get("gt_roi") or []) if side == "gts" else set()
         objs = []
-        for (u, c, l) in case[side]:
+        for k, (u, c, l) in enumerate(case[side]):
             lab = labels[l]
-            objs.append(E["Obj"](100, E["cams"][c], 1.0, E["Label"](lab, lab.value), None,
-                                 None if u is None else f"u{u}"))
+            if r is None:
+                label = E["Label"](lab, lab.value)
+            else:
+                attrs = r.choice(ATTRS)
+                name = r.choice(names[lab.name])
+                label = E["Label"](lab, name) if attrs is None else E["Label"](lab, name, list(attrs))
+            roi = (8 * k, 4, 10 + k, 10) if k in rois else None
+            objs.append(E["Obj"](100, E["cams"][c], 1.0, label, roi, None if u is None else f"u{u}"))
         return objs
 
     def run_impl(self, case):
         E = _env()
         es, gs = self._objects(case, "ests"), self._objects(case, "gts")
         es0, gs0 = list(es), list(gs)
+        labels = E["tlr"] if case["mode"] == "tlr" else E["gen"]
+        kw = {}
+        if case.get("kw"):         # what the manager passes besides the objects: none of it may change an identity-based pairing
+            k = case["kw"]
+            if k["policy"] is not None:
+                kw["matching_label_policy"] = E["Policy"][k["policy"]]
+            if k["thr"] is not None:
+                kw["matchable_thresholds"] = list(k["thr"])
+            if k["tl"]:
+                kw["target_labels"] = [labels[t] for t in case["targets"]]
         try:
             # "when uuid-first matching is requested": not passing the argument at all must behave like passing False
             if case["uf"] or (len(es) + len(gs)) % 2 == 0:
-                res = E["get"](E["task"], es, gs, uuid_matching_first=case["uf"])
+                res = E["get"](E["task"], es, gs, uuid_matching_first=case["uf"], **kw)
             else:
-                res = E["get"](E["task"], es, gs)
+                res = E["get"](E["task"], es, gs, **kw)
         except RuntimeError as e:
             if "uuid of estimation and ground truth must be set" in str(e):
                 return {"error": "uuid_none"}
@@ -350,7 +434,6 @@ class PipelineCorr(Corr):
         obs = {"pairs": pairs}
         obs["lists_unchanged"] = (len(es) == len(es0) and all(a is b for a, b in zip(es, es0))
                                   and len(gs) == len(gs0) and all(a is b for a, b in zip(gs, gs0)))
-        labels = E["tlr"] if case["mode"] == "tlr" else E["gen"]
         targets = [labels[t] for t in case["targets"]]
         obs["all"] = _acc_obs(E["Acc"](_nest(res, case["nest"]), len(gs), targets))
         d = E["divide"](res, targets)
@@ -542,8 +625,27 @@ class PipelineCorr(Corr):
     def distribution(self, cases, obs):
         d = {"streams": {}, "modes": {}, "errors": {}, "sizes": {"<=4x4": 0, "5..12": 0, ">12": 0},
              "with_pairs": 0, "with_gtless_results": 0, "tlr_with_uuid_stage_pairs": 0, "perfect": 0,
-             "summary_f1": {"number": 0, "inf": 0, "nan": 0}, "undefined_scores_in_frame_accuracy": 0}
+             "summary_f1": {"number": 0, "inf": 0, "nan": 0}, "undefined_scores_in_frame_accuracy": 0,
+             "gt_with_roi": {"none": 0, "first_gt": 0, "only_later_gts": 0}, "aliased_names_or_attributes": 0,
+             "keyword_arguments": {"not_passed": 0, "policy_DEFAULT_or_absent": 0, "policy_ALLOW_UNKNOWN": 0, "policy_ALLOW_ANY": 0,
+                                   "matchable_thresholds": 0, "target_labels": 0},
+             "objects_labelled_unknown": 0, "objects_labelled_fp": 0, "objects_labelled_animal_or_traffic_light": 0}
         for c, o in zip(cases, obs):
+            roi = c.get("gt_roi") or []
+            d["gt_with_roi"]["none" if not roi else ("first_gt" if 0 in roi else "only_later_gts")] += 1
+            d["aliased_names_or_attributes"] += c.get("rep") is not None
+            k = c.get("kw")
+            if not k:
+                d["keyword_arguments"]["not_passed"] += 1
+            else:
+                d["keyword_arguments"]["policy_" + (k["policy"] if k["policy"] in ("ALLOW_UNKNOWN", "ALLOW_ANY") else "DEFAULT_or_absent")] += 1
+                d["keyword_arguments"]["matchable_thresholds"] += k["thr"] is not None
+                d["keyword_arguments"]["target_labels"] += bool(k["tl"])
+            unk = 3 if c["mode"] == "tlr" else 4
+            labs = [x[2] for x in c["ests"] + c["gts"]]
+            d["objects_labelled_unknown"] += labs.count(unk)
+            d["objects_labelled_fp"] += labs.count(FP_LABEL)
+            d["objects_labelled_animal_or_traffic_light"] += labs.count(EXTRA_LABEL)
             d["streams"][c["stream"]] = d["streams"].get(c["stream"], 0) + 1
             m = c["mode"] + ("+uuid_first" if c["uf"] else "")
             d["modes"][m] = d["modes"].get(m, 0) + 1
@@ -669,7 +771,9 @@ class C11(Prop):
                   "never fail; accuracy/precision/recall/F1 of ClassificationAccuracy and of _summarize equal TP/(N+G-TP), TP/N, TP/G, "
                   "2TP/(N+G) with inf/nan exactly at zero denominators, lie in [0,1] when TP <= G (proved to hold for the matchers' outputs, "
                   "per label and pooled), and are 1 in the perfect case. Model and code are compared on every run: pair lists in order, "
-                  "error kinds, all counts and scores (1e-9), end to end through divide_objects and ClassificationMetricsScore.")
+                  "error kinds, all counts and scores (1e-9), end to end through divide_objects and ClassificationMetricsScore, with "
+                  "ground truths that carry a ROI, aliased label names / attributes and the manager's keyword arguments among the inputs "
+                  "(the oracle demands the same pairs and label agreement whatever they are).")
     level_note = ("Trusted: Coq kernel + vm_compute; the hand-written model Model/Classif.v tied by this run's correspondence; uuids encoded "
                   "injectively as numbers, cameras/labels by enum index, the facts `frame_id == CAM_TRAFFIC_LIGHT` and `semantic_label.is_fp()` "
                   "read from the objects by the harness. Objects are identified by their position in the caller's list (DynamicObject2D has no "
